@@ -280,8 +280,32 @@ func main() {
 				} else if toks != nil || strings.HasPrefix(res, "OK") {
 					c17, c01 = oracleScan(src, toks)
 				}
+				// the MANAGER must scan with its own configuration: loading the same source through a manager configured
+				// with this prefix and these raw-text names succeeds exactly when the scanner accepts it (a directive
+				// value is rejected at load under every configured prefix)
+				c10 := ""
+				if !strings.HasPrefix(res, "PANIC") {
+					func() {
+						defer func() {
+							if x := recover(); x != nil {
+								c10 = fmt.Sprintf("manager.Add panicked: %v", x)
+							}
+						}()
+						m := html.NewTplManager().SetAttrPrefix(prefix)
+						if tags != nil {
+							m.SetTextTags(tags)
+						}
+						err := m.Add("x.html", strings.NewReader(src))
+						scanOK := strings.HasPrefix(res, "OK")
+						if scanOK && err != nil && strings.Contains(err.Error(), "failed to read html tokens") {
+							c10 = fmt.Sprintf("the scanner accepts the source with prefix %q but the manager's load rejects its tokens: %v", prefix, err)
+						} else if !scanOK && err == nil {
+							c10 = fmt.Sprintf("the scanner rejects the source with prefix %q (%s) but the manager loads it", prefix, res)
+						}
+					}()
+				}
 				out.put(fmt.Sprintf("scan %s %s %s", encStr(prefix), encStrs(defTags(tags)), encStr(src)),
-					res, verdict("C17", c17), verdict("C01", c01), verdict("C08", panicOnly(res)))
+					res, verdict("C17", c17), verdict("C01", c01), verdict("C10", c10), verdict("C08", panicOnly(res)))
 			} else {
 				out.put(fmt.Sprintf("tree %s %s %s %s", encStr(prefix), encStrs(defTags(tags)), encStrs(defVoids(voids)), encStr(src)),
 					implTree(prefix, tags, voids, src))
@@ -471,6 +495,7 @@ func main() {
 					{"two()", "ERR err LOG "}, {"none()", "ERR err LOG "}, {"two() + 1", "ERR err LOG "}, {"cat(two())", "ERR err LOG "},
 					{"one(1)", "ERR err LOG "}, {"add(1)", "ERR err LOG "}, {"add(1, 's')", "ERR err LOG "}, {"cat('a', 1)", "ERR err LOG "},
 					{"string(s)", "OK s104.105 LOG "}, {"cat(string(s), s)", "OK s104.105.104.105 LOG "}, {"s()", "ERR err LOG "}, {"st.Name()", "ERR err LOG "},
+					{"*np", "ERR err LOG "}, {"(*np).Name", "ERR err LOG "}, {"*np == nil", "ERR err LOG "}, {"(*pt).Name", "OK s66.111.98 LOG "}, {"*nilv", "ERR err LOG "},
 					{"ident(fail)()", "ERR user1 LOG "}, {"ident(one)()", "OK i4:1 LOG "}, {"(one)()", "OK i4:1 LOG "},
 				}
 				k := r.Intn(len(misc))
